@@ -25,6 +25,14 @@ theorem Ethernet_unpack_state_independent (t u : Eth) (buf : Bytes) (fcs : Bool)
     repeat' split
     all_goals simp
 
+/-- non-vacuity: an object left VLAN-tagged by an earlier decode decodes an untagged 17-byte frame; the tag switch is reset -/
+example :
+    let a : Eth := { Eth.fresh with dstmac := 0x01005E000001, srcmac := 0x000C4D000A6C, payload := [1, 2, 3] }
+    let t : Eth := { Eth.fresh with vlan := true, vlantag := 5, payload := [9] }
+    ∃ b, (Eth.pack a false).2 = .ok b ∧ b.length = 17 ∧ (Eth.unpack t b false).2 = .ok () ∧
+      (Eth.unpack t b false).1.vlan = false :=
+  ⟨_, rfl, rfl, rfl, rfl⟩
+
 /-! ### IP -/
 /-- the only field `pack` writes is the computed total length (and nothing at all when an address is unusable) -/
 theorem IP_pack_preserves_fields (s : IP) :
@@ -50,6 +58,14 @@ theorem IP_unpack_state_independent (t u : IP) (buf : Bytes) (h : (IP.unpack t b
   · simp [IP.unpack, IP_HEADER_SIZE, hl] at h
   · rw [IP_unpack_eq t _ (by omega), IP_unpack_eq u _ (by omega)]
 
+/-- non-vacuity: a DF fragment-offset header with four payload bytes, decoded into a used object -/
+example :
+    let a : IP := { IP.fresh with srcip := some 0xC0A81C10, dstip := some 0xEB000001, flags := 2, fragment_offset := 1480,
+                                  payload := [1, 2, 3, 4] }
+    let t : IP := { IP.fresh with ident := 77, ttl := 3, payload := [9, 9] }
+    ∃ b, (IP.pack a).2 = .ok b ∧ b.length = 24 ∧ (IP.unpack t b).2 = .ok () ∧ (IP.unpack t b).1.payload = [1, 2, 3, 4] :=
+  ⟨_, rfl, rfl, rfl, rfl⟩
+
 /-! ### UDP -/
 theorem UDP_pack_preserves_fields (s : UDP) : (UDP.pack s).1 = { s with len := s.payload.length + UDP_HEADER_SIZE } := by
   simp only [UDP.pack]; split <;> rfl
@@ -63,6 +79,12 @@ theorem UDP_unpack_state_independent (t u : UDP) (buf : Bytes) (h : (UDP.unpack 
   simp only [UDP.unpack]
   repeat' split
   all_goals simp_all
+
+example :
+    let a : UDP := { UDP.fresh with srcport := 4400, dstport := 5500, payload := [5] }
+    let t : UDP := { UDP.fresh with srcport := 1, len := 99, payload := [7, 7] }
+    ∃ b, (UDP.pack a).2 = .ok b ∧ b.length = 9 ∧ (UDP.unpack t b).2 = .ok () ∧ (UDP.unpack t b).1.payload = [5] :=
+  ⟨_, rfl, rfl, rfl, rfl⟩
 
 /-! ### ICMP (pack only) -/
 theorem ICMP_pack_preserves_fields (s : ICMP) : (ICMP.pack s).1 = s := by
@@ -92,6 +114,12 @@ theorem ARP_unpack_state_independent (t u : ARP) (buf : Bytes) (h : (ARP.unpack 
       | (simp; done)
       | (rename_i hlast; intro _; simp only [inetNtoa, slice_length] at hlast; split at hlast <;> first | omega | (simp at hlast))
 
+example :
+    let a : ARP := { ARP.fresh with dstip := some 0xC0A81C02, srcmac := 0x000C4D000A6C }
+    let t : ARP := { ARP.fresh with operation := 2, dstmac := 5 }
+    ∃ b, (ARP.pack a).2 = .ok b ∧ 28 ≤ b.length ∧ (ARP.unpack t b).2 = .ok () :=
+  ⟨_, rfl, by decide, rfl⟩
+
 /-! ### PcapRecord -/
 open Acra.Model.Pcap Acra.Gen.Pcap
 
@@ -109,6 +137,14 @@ theorem PcapRecord_unpack_state_independent (t u : Rec) (buf : Bytes) (h : (Rec.
   simp only [Rec.unpack]
   repeat' split
   all_goals simp_all
+
+/-- non-vacuity: the 16-byte header of a record with three payload bytes and a present-day time stamp, decoded into an
+    object that still holds another record's payload -/
+example :
+    let a : Rec := { (Rec.fresh.setPayload [1, 2, 3]) with sec := 1700000000, usec := 999999 }
+    let t : Rec := Rec.fresh.setPayload [0xAB]
+    ∃ b, (Rec.pack a).2 = .ok b ∧ (Rec.unpack t (b.take 16)).2 = .ok () ∧ (Rec.unpack t (b.take 16)).1.incl_len = 3 :=
+  ⟨_, rfl, rfl, rfl⟩
 
 /-- the former witness of the defect: the same 16 bytes now leave a used object and a fresh one alike -/
 theorem PcapRecord_unpack_clears_stale_payload :
